@@ -14,7 +14,7 @@ PID = "C07"
 THEOREMS = ["merger_eq_spec", "mergerFrom_spec", "merge_buffer_independent", "merge_comm", "merge_assoc", "merge_sum",
             "merge_pointwise", "merger_stream_sorted", "breakLoop_spec", "breakpoints_contract",
             "merger_agg_eq_spec", "mergerAggFrom_spec", "merge_agg_comm", "merge_agg_buffer_independent", "groupAgg_sum", "groupAgg_eq_of"]
-LEVELS = {"merge": "top", "refuses": "top", "limits": "top", "breakpoints": "unit", "agg": "top"}
+LEVELS = {"merge": "top", "refuses": "top", "limits": "top", "breakpoints": "unit", "agg": "top", "mixed_dtypes": "top", "cli_merge": "top"}
 DESCRIBE = {
     "merge": "cooler.merge_coolers(out, inputs, mergebuf) for EVERY mergebuf 1..sum(nnz)+1 and every order of the inputs, plus a "
              "nested merge, vs Lean `mergeSpec` (= streaming `merger` for any valid partition, theorem merger_eq_spec); recorded "
@@ -22,6 +22,9 @@ DESCRIBE = {
     "refuses": "inputs differing in bin table, resolution, chromosome set or storage mode must be refused with an error",
     "limits": "values near the limits of the value dtype: the stored value equals the exact aggregate or the call errs",
     "breakpoints": "contract `validBreakpoints` evaluated by Lean on the real merge_breakpoints(indexes, bufsize) output",
+    "mixed_dtypes": "inputs whose count columns have DIFFERENT dtypes (int32/int64/float32/float64, values multiples of 1/4) in every order: "
+                    "the stored values must be the exact per-pixel sums (Lean `mergeSpec` on the values scaled by 4), never truncated",
+    "cli_merge": "`cooler merge` with one or several --field options (dtype=, agg=) in every order vs Lean `mergeSpec` / `mergeSpecAgg` per column",
     "agg": "merge_coolers(columns=[count, w], agg={w: max|min|sum|first|last}) for several merge buffers vs Lean `mergeSpecAgg` "
            "(= streaming `mergerAgg` for any valid partition and ANY aggregation function: theorem merger_agg_eq_spec)",
 }
@@ -194,7 +197,89 @@ def _agg(case):
                 os.unlink(p)
 
 
-CHECKS = {"merge": _merge, "refuses": _refuses, "limits": _limits, "breakpoints": _breakpoints, "agg": _agg}
+def _mixed_dtypes(case):
+    import itertools as it
+    d = gen.tmpdir()
+    tag = os.getpid()
+    n = case["n"]
+    bins = gen.layout_bins([n])
+    paths = []
+    out = os.path.join(d, f"x-{tag}-out.cool")
+    try:
+        # values are quarter units: integer inputs hold multiples of 4
+        q_inputs = []
+        for k, (px, dt) in enumerate(zip(case["inputs"], case["dtypes"])):
+            p = os.path.join(d, f"x-{tag}-{k}.cool")
+            isint = dt.startswith("int")
+            q = [[i, j, (v * 4 if isint else v)] for i, j, v in px]
+            q_inputs.append(q)
+            df = gen.pixels_df([[i, j, 0] for i, j, _ in px])
+            df["count"] = np.array([qq[2] / 4 for qq in q], dtype=dt)
+            impl(cooler.create_cooler, p, gen.bins_df(bins), df, dtypes={"count": dt}, ordered=True)
+            paths.append(p)
+        for order in it.permutations(range(len(paths))):
+            impl(cooler.merge_coolers, out, [paths[k] for k in order], mergebuf=case["mergebuf"])
+            t = cooler.Cooler(out).pixels()[:]
+            got = [[int(a), int(b), float(c) * 4] for a, b, c in zip(t["bin1_id"], t["bin2_id"], t["count"])]
+            m = drv().ask("C07.merge", inputs=[q_inputs[k] for k in order], n=n, mergebuf=case["mergebuf"])
+            want = [[i, j, float(v)] for i, j, v in m["spec"]]
+            if got != want:
+                return {"mismatch": True, "order": list(order), "dtypes": [case["dtypes"][k] for k in order],
+                        "stored_dtype": str(t["count"].dtype), "impl_quarters": got, "model_quarters": want,
+                        "note": "a stored value differs from the exact aggregate (values are multiples of 1/4)"}
+            if float(cooler.Cooler(out).info["sum"]) * 4 != float(m["total"]):
+                return {"mismatch": True, "order": list(order), "what": "sum attribute", "impl": cooler.Cooler(out).info["sum"],
+                        "model_quarters": m["total"]}
+        return None
+    finally:
+        for p in paths + [out]:
+            if os.path.exists(p):
+                os.unlink(p)
+
+
+def _cli_merge(case):
+    from click.testing import CliRunner
+    from cooler.cli import cli
+    d = gen.tmpdir()
+    tag = os.getpid()
+    n = case["n"]
+    bins = gen.layout_bins([n])
+    paths = []
+    out = os.path.join(d, f"y-{tag}-out.cool")
+    wval = lambda k, v: v * 5 - 3 * k
+    try:
+        for k, px in enumerate(case["inputs"]):
+            p = os.path.join(d, f"y-{tag}-{k}.cool")
+            gen.write_cooler(p, bins, px, extra={"w": np.array([wval(k, v) for _, _, v in px], dtype=np.int64)},
+                             columns=["count", "w"], dtypes={"w": "int64"})
+            paths.append(p)
+        w_inputs = [[[i, j, wval(k, v)] for i, j, v in px] for k, px in enumerate(case["inputs"])]
+        args = ["merge", "-c", str(case["mergebuf"])]
+        for f in case["fields"]:
+            args += ["--field", f]
+        args += [out] + paths
+        r = CliRunner().invoke(cli, args)
+        if r.exit_code != 0:
+            return {"mismatch": True, "argv": args[:-len(paths) - 1], "exit": r.exit_code, "exception": repr(r.exception)[:300]}
+        t = cooler.Cooler(out).pixels()[:]
+        for f in (case["fields"] or ["count"]):
+            name = f.split(":")[0].split(",")[0]
+            agg = "sum"
+            if "agg=" in f:
+                agg = f.split("agg=")[1].split(",")[0]
+            src = case["inputs"] if name == "count" else w_inputs
+            m = drv().ask("C07.merge_agg", inputs=src, n=n, mergebuf=case["mergebuf"], agg=agg)
+            got = [[int(a), int(b), int(v)] for a, b, v in zip(t["bin1_id"], t["bin2_id"], t[name])]
+            if got != m["spec"]:
+                return {"mismatch": True, "argv": args[:-len(paths) - 1], "column": name, "agg": agg, "impl": got, "model": m["spec"]}
+        return None
+    finally:
+        for p in paths + [out]:
+            if os.path.exists(p):
+                os.unlink(p)
+
+
+CHECKS = {"mixed_dtypes": _mixed_dtypes, "cli_merge": _cli_merge, "merge": _merge, "refuses": _refuses, "limits": _limits, "breakpoints": _breakpoints, "agg": _agg}
 
 
 def nontrivial(name, case):
@@ -267,6 +352,18 @@ def cases(tier, rng):
             idx.append([0] + list(itertools.accumulate(steps)))
         tot = sum(x[-1] for x in idx)
         yield "breakpoints", {"indexes": idx, "bufsizes": list(range(1, min(tot, 12) + 2)) + [10 ** 6]}
+    for _ in range(24 if thorough else 6):
+        n = rng.randint(2, 4)
+        k = rng.randint(2, 3)
+        ins = _inputs(rng, n, True, k)
+        yield "mixed_dtypes", {"n": n, "inputs": ins, "mergebuf": rng.randint(1, 9),
+                               "dtypes": [rng.choice(["int32", "int64", "float32", "float64"]) for _ in range(k)]}
+    yield "mixed_dtypes", {"n": 3, "inputs": [[[0, 1, 1], [1, 1, 2]], [[0, 1, 6], [1, 2, 9]]], "mergebuf": 5, "dtypes": ["int64", "float64"]}
+    field_sets = [[], ["count"], ["count", "w"], ["w", "count"], ["count", "w:agg=max"], ["w:agg=min", "count"],
+                  ["count:dtype=int64", "w:dtype=int64,agg=max"], ["w:agg=first"], ["count", "w:agg=last"]]
+    for fs in (field_sets if thorough else field_sets[:7]):
+        n = rng.randint(2, 4)
+        yield "cli_merge", {"n": n, "inputs": _inputs(rng, n, True, rng.randint(2, 3)), "mergebuf": rng.choice([1, 2, 5, 100]), "fields": fs}
     for _ in range(30 if thorough else 8):
         n = rng.randint(2, 5)
         ins = _inputs(rng, n, True, rng.randint(2, 3))
